@@ -26,16 +26,22 @@ def run_history(world, calls, hist):
     return outcomes
 
 
-def probe_all(world, want_rep):
-    res, rep = [], []
-    for name, fn, repeatable in world.probes():
+def probe_all(world, want_rep, order=0):
+    """Runs the probe suite; results are reported in catalogue order whatever the execution order.
+    order 1 runs the plain substitution probe before every other probe."""
+    probes = world.probes()
+    idx = list(range(len(probes)))
+    if order == 1:
+        k = [n_ for n_, _, _ in probes].index("subst {q:p} phi1")
+        idx = [k] + [i for i in idx if i != k]
+    res, rep = [None] * len(probes), [1] * len(probes)
+    for i in idx:
+        name, fn, repeatable = probes[i]
         r, obj = fn()
-        res.append(r)
+        res[i] = r
         if want_rep and repeatable and obj is not None:
             r2, obj2 = fn()
-            rep.append(1 if obj2 is obj else 0)
-        else:
-            rep.append(1)
+            rep[i] = 1 if obj2 is obj else 0
     return res, rep
 
 
@@ -70,11 +76,12 @@ def run(ck):
         wa = World()
         calls_a = wa.c15_good_calls() + wa.fail_calls()
         oa = run_history(wa, calls_a, hc["h"])
-        pa, rep = probe_all(wa, False)
+        order = 1 if ck.rng.random() < 0.5 else 0
+        pa, rep = probe_all(wa, False, order)
         wb = World()
         calls_b = wb.c15_good_calls() + wb.fail_calls()
         run_history(wb, calls_b, hc["twin"])
-        pb, _ = probe_all(wb, False)
+        pb, _ = probe_all(wb, False, order)
         evs.append({"id": k, "kind": "twin", "h": hc["h"], "twin": hc["twin"], "outcomes": oa, "pa": pa, "pb": pb, "rep": rep,
                     "isfail": [1 if c > 5 else 0 for c in hc["h"]]})
         ck.count()
@@ -101,7 +108,7 @@ def run(ck):
                "outcomes": evs[7]["outcomes"], "probe0_A": evs[7]["pa"][0]})
     ck.cov["exhaustive"] = not quick
     ck.cov["rule"] = ("fault histories enumerated by TLC (all sequences of length <= 3 over 5 good + 23 failing calls with >= 1 failing "
-                      "call; length 3 sampled in quick; simulated length 7) x 18 probes, twin run without the failing calls. "
+                      "call; length 3 sampled in quick; simulated length 7) x 28 probes in two execution orders, twin run without the failing calls. "
                       "non-trivial = distinct histories in which at least one call actually raised")
     ck.assumptions += ["harness/envcalls.py catalogue of failing calls covers: ill-typed construction, sort-breaking substitution at 5 "
                        "depths, exception inside a walk, unsupported node / operator, undefined symbol, malformed SMT-LIB, HR syntax error"]
